@@ -488,6 +488,21 @@ try:
                                           {"kind": kind, "numpoints": numpoints, "numtimetraces": len(tx), "which": k_,
                                            "threads": t, "max_abs_diff": float(np.max(np.abs(np.asarray(v_) - np.asarray(base))))})
                             break
+                # the amplitudes may also be given as a plain ndarray (documented): same bits, for every block
+                # size, and the caller's array is left untouched ("no call modifies its input arrays")
+                arr = np.array(full, copy=True)
+                arr_h = h(arr)
+                for bs in (1, 3, numpoints + 1):
+                    for fn_, key_ in ((amodel.sensitivity_uniform_tfm, "sens_uniform"), (amodel.sensitivity_model_assisted_tfm, "sens_assisted")):
+                        got_ = fn_(arr, weights, block_size=bs)
+                        if h(arr) != arr_h:
+                            chk.violation(f"sensitivity:{kind}:inputs", f"{fn_.__name__} modified the amplitude array it was given",
+                                          {"kind": kind, "numpoints": numpoints, "numtimetraces": len(tx), "block_size": bs,
+                                           "function": fn_.__name__, "weights": weights, "amplitudes_before": full, "amplitudes_after": arr})
+                            arr = np.array(full, copy=True)
+                        elif not np.array_equal(bits(got_), bits(canon[key_])):
+                            chk.violation(f"sensitivity:{kind}:ndarray", f"{fn_.__name__} on a plain ndarray differs from the value "
+                                          "on the ModelAmplitudes object", {"kind": kind, "numpoints": numpoints, "block_size": bs})
                 if ref is None:
                     ref = canon
                 else:
